@@ -58,6 +58,10 @@ INFO = {
  'C18c': ('C18', "misc.stable_division guard `b.detach() > epsilon` without abs: negative denominators replaced by -epsilon", "logqp=True, diagonal noise, a negative diffusion entry"),
  'C19c': ('C19', "is_strictly_increasing vectorised as `(ts[1:] >= ts[:-1]).all()`", "ts with two equal consecutive times: accepted instead of ValueError"),
  'C20c': ('C20', "SDELogqp pseudo-inverse shortcut for a single noise channel normalised by (g**2).sum() over the whole batch", "logqp=True, scalar noise or general/additive with m == 1, batch >= 2"),
+ 'C01c': ('C01', "BaseSDESolver.integrate: `curr_t = next_t` hoisted out of both branches, so a rejected adaptive trial advances time without advancing the state", "adaptive=True and at least one rejected trial: the drift and Brownian increment over the rejected interval are dropped"),
+ 'C11c': ('C11', "f_and_g_prod_corrected_diagonal builds its drift with _f_uncorrected (copy-paste)", "Ito, diagonal noise, state-dependent g, an adjoint solver that uses f_and_g_prod (adjoint_method='euler')"),
+ 'C15c': ('C15', "ReversibleHeun.init_extra_solver_state evaluates f_and_g at -t0", "ts[0] != 0, explicitly time-dependent f or g, library-made initial extra state: state 0 is not reconstructed"),
+ 'C17c': ('C17', "new ForwardSDE.prod_additive uses g[0] for the whole batch (one mm instead of bmm)", "additive noise, batch >= 2, diffusion matrix differing across batch rows"),
  'C20': ('C20', "Levy-area noise drawn at size[1:-1] + (m, m) and broadcast over the batch", "davie/foster, batch >= 2, m >= 2: all batch rows share the Levy-area noise (marginals unchanged)"),
 }
 for sid, (prop, what, needs) in INFO.items():
